@@ -1,6 +1,7 @@
 """C07 - flush, compaction and eviction never change content (narrow claim)."""
 from rules import misc as M
 from rules import payload as O
+from rules import paths as PT
 
 
 def run(ctx):
@@ -11,6 +12,8 @@ def run(ctx):
     ctx.run(M.lit2_catalogue_literals)
     ctx.run(M.nul1_null_map_never_ignored)
     ctx.run(M.nul2_bitmap_ones_fill_whole_bytes_only)
+    ctx.run(M.nul5_builder_bitmap_written_bitwise)
+    ctx.run(PT.flw11_digest_when_modified)
     return ctx.finish(
         'Static rules on the compaction path, which re-encodes every column through a second decode '
         'routine the query path never uses: that routine handles every codec op and every '
